@@ -531,5 +531,226 @@ theorem text_order_free_values (cfga cfgb : Time.TsCfg) (st : Settings) (ta tb :
     fun sel hsel b b' h1 h2 =>
       C04.report_values_perm s1 s2 sel hsel _ _ (C04.postsOf_perm la lb hperm) hwf b b' h1 h2⟩
 
+/-! ## 8. non-vacuity: a concrete text that loads, and the further hypotheses of the theorems on it
+
+```
+2024-01-01 'one                                   2024-01-02 (c2) 'two
+ # uuid: 11111111-2222-3333-4444-5555555555ab      e 3.5
+ a:b 1.50                                          f
+ a:bc 2
+ e
+```
+Two sibling accounts of which one name is a string prefix of the other (`a:b`, `a:bc`), a never-posted ancestor
+(`a`), two amount-less last postings, a uuid.  `List.mergeSort` does not evaluate under `decide`, so the text is
+evaluated through `acceptText` (`load_of_acceptText`) and the sorts of the report kernels through
+`List.mergeSort_of_pairwise` (`C13.fromIter_eval`). -/
+namespace Ex
+
+def utc : Time.TsCfg := Time.utcCfg
+def lax0 : Settings := Settings.ofConfig false false true [] [] []
+
+def sample : List Char :=
+  "2024-01-01 'one\n # uuid: 11111111-2222-3333-4444-5555555555ab\n a:b 1.50\n a:bc 2\n e\n\n2024-01-02 (c2) 'two\n e 3.5\n f\n".toList
+
+/-- the same two transactions written in the other order -/
+def swapped : List Char :=
+  "2024-01-02 (c2) 'two\n e 3.5\n f\n\n2024-01-01 'one\n # uuid: 11111111-2222-3333-4444-5555555555ab\n a:b 1.50\n a:bc 2\n e\n".toList
+
+def h1 : Header := ⟨⟨1704067200000000000, 0⟩, none, some "one", some "11111111-2222-3333-4444-5555555555ab", none, none, none⟩
+def h2 : Header := ⟨⟨1704153600000000000, 0⟩, some "c2", some "two", none, none, none, none⟩
+def r1 : RawTxn := ⟨h1, [⟨["a", "b"], ⟨false, 150, 2⟩, none, none⟩, ⟨["a", "bc"], ⟨false, 2, 0⟩, none, none⟩], some (["e"], none)⟩
+def r2 : RawTxn := ⟨h2, [⟨["e"], ⟨false, 35, 1⟩, none, none⟩], some (["f"], none)⟩
+def mkP (a : Path) (v : Dec) : Posting := ⟨a, "", v, v, false, "", none⟩
+def t1 : Txn := ⟨h1, [mkP ["a", "b"] ⟨false, 150, 2⟩, mkP ["a", "bc"] ⟨false, 2, 0⟩, mkP ["e"] ⟨true, 350, 2⟩]⟩
+def t2 : Txn := ⟨h2, [mkP ["e"] ⟨false, 35, 1⟩, mkP ["f"] ⟨true, 35, 1⟩]⟩
+/-- the settings after the load: every account named, and the ancestor `a`, were created -/
+def stAfter : Settings := ⟨false, false, true, [["a", "b"], ["a"], ["a", "bc"], ["e"], ["f"]], [], [""], []⟩
+
+set_option maxRecDepth 40000 in
+theorem sample_parses : parseJournal utc sample = some [r1, r2] := by decide
+
+set_option maxRecDepth 40000 in
+theorem swapped_parses : parseJournal utc swapped = some [r2, r1] := by decide
+
+theorem sample_accepts : acceptText utc lax0 sample = .ok ([t1, t2], stAfter) := by
+  unfold acceptText
+  rw [sample_parses]
+  decide
+
+/-- **the hypothesis of every theorem of this file is satisfiable**: the text loads (to the implicit amounts
+    `e -3.50` and `f -3.5`) -/
+theorem sample_loads : loadText utc lax0 sample = .ok ([t1, t2], stAfter) := by
+  rw [load_of_acceptText utc lax0 stAfter sample [t1, t2] sample_accepts]
+  unfold sortTxns
+  rw [List.mergeSort_of_pairwise (by decide)]
+
+/-- written the other way round, the text loads to the same list (`text_order_free`: the two transactions are
+    distinguishable, so the loads are equal) -/
+theorem swapped_loads : ∃ ts st', loadText utc lax0 swapped = .ok (ts, st') := by
+  have h : acceptText utc lax0 swapped = .ok ([t2, t1], stAfter.accounts.foldl (fun s _ => s)
+      ⟨false, false, true, [["e"], ["f"], ["a", "b"], ["a"], ["a", "bc"]], [], [""], []⟩) := by
+    unfold acceptText
+    rw [swapped_parses]
+    decide
+  exact ⟨_, _, load_of_acceptText utc lax0 _ swapped _ h⟩
+
+example : ∀ ts st', loadText utc lax0 swapped = .ok (ts, st') → ts = [t1, t2] := by
+  intro ts st' h
+  have := (text_order_free utc utc lax0 sample swapped [r1, r2] [r2, r1] sample_parses swapped_parses
+    (List.Perm.swap r2 r1 [])).2 [t1, t2] stAfter ts st' sample_loads h
+  refine (this.2.1 ?_).symm
+  intro a b ha hb hk
+  simp only [List.mem_cons, List.not_mem_nil, or_false] at ha hb
+  rcases ha with rfl | rfl <;> rcases hb with rfl | rfl <;> first | rfl | (revert hk; decide)
+
+/-- C01: both transactions are balanced -/
+example : ∀ t ∈ [t1, t2], C01.Balanced t := text_accept_balanced utc lax0 stAfter sample [t1, t2] sample_loads
+
+/-- C02: `PostsWF` of its posting stream -/
+example : C02.PostsWF (postsOf [t1, t2]) := text_postsWF utc lax0 stAfter sample [t1, t2] sample_loads
+
+def rowsAll : List BalRow := [
+  ⟨["a"], "", ⟨false, 0, 0⟩, ⟨false, 350, 2⟩⟩, ⟨["a", "b"], "", ⟨false, 150, 2⟩, ⟨false, 150, 2⟩⟩,
+  ⟨["a", "bc"], "", ⟨false, 2, 0⟩, ⟨false, 2, 0⟩⟩, ⟨["e"], "", ⟨false, 0, 2⟩, ⟨false, 0, 2⟩⟩,
+  ⟨["f"], "", ⟨true, 35, 1⟩, ⟨true, 35, 1⟩⟩]
+
+/-- the balance report of the loaded text is inside the exact domain: the hypothesis `fromIter … = .ok b` of
+    `text_balance_deltas` / `text_delta_zero` (and `balance … = .ok bal` of `text_balance_exact`) is satisfiable -/
+theorem sample_fromIter : fromIter stAfter (fun _ => true) (postsOf [t1, t2]) = .ok ⟨rowsAll, [("", ⟨false, 0, 2⟩)]⟩ := by
+  rw [C13.fromIter_eval stAfter (fun _ => true) (postsOf [t1, t2])
+    [(("", ["a", "b"]), ⟨false, 150, 2⟩), (("", ["a", "bc"]), ⟨false, 2, 0⟩), (("", ["e"]), ⟨false, 0, 2⟩),
+     (("", ["f"]), ⟨true, 35, 1⟩)]
+    [(("", ["a"]), ⟨false, 0, 0⟩), (("", ["a", "b"]), ⟨false, 150, 2⟩), (("", ["a", "bc"]), ⟨false, 2, 0⟩),
+     (("", ["e"]), ⟨false, 0, 2⟩), (("", ["f"]), ⟨true, 35, 1⟩)]
+    rowsAll [("", ⟨false, 0, 2⟩)] (by decide) (by decide) (by decide) (by decide) (by decide) (by decide)]
+  rfl
+
+theorem sample_balance : balance stAfter (postsOf [t1, t2]) = .ok rowsAll := by
+  obtain ⟨bal, hb, hrows⟩ := C13.fromIter_rows _ _ _ _ sample_fromIter
+  have : bal = rowsAll := by
+    have e : rowsAll = List.filter (fun _ => true) bal := hrows
+    rw [e]; exact (List.filter_eq_self.mpr (fun _ _ => rfl)).symm
+  rw [← this]; exact hb
+
+/-- `text_balance_exact` on it: e.g. the never-posted ancestor `a` shows 3.50 = 1.50 + 2, the exact sum of the
+    postings below it (`a:b`, `a:bc` — not `a:bc` under `a:b`) -/
+example : C02.treeSum (postsOf [t1, t2]) ("", ["a"]) = (⟨false, 350, 2⟩ : Dec).units :=
+  ((text_balance_exact utc lax0 stAfter sample [t1, t2] sample_loads [t1, t2] (sel_all _) stAfter rowsAll
+    sample_balance).2.2 ⟨["a"], "", ⟨false, 0, 0⟩, ⟨false, 350, 2⟩⟩ (by decide)).2.symm
+
+/-- `text_delta_zero_unpriced` on it: the text has no `@`/`=` position, so the delta of the report is zero -/
+example : ∀ cd ∈ [(("", ⟨false, 0, 2⟩) : String × Dec)], cd.2.units = 0 :=
+  text_delta_zero_unpriced utc lax0 stAfter sample [t1, t2] sample_loads [t1, t2] (sel_all _) stAfter
+    (by intro rs hp; rw [sample_parses] at hp; cases hp; decide) _ sample_fromIter
+
+/-- `text_balance_never_errs` applies: `lax0` is built by `Settings.ofConfig` -/
+example : balance stAfter (postsOf [t1, t2]) ≠ .err :=
+  text_balance_never_errs utc false false true [] [] [] stAfter sample [t1, t2] sample_loads [t1, t2] (sel_all _)
+
+def rrow (a : Path) (v tot : Dec) : RegRow := ⟨mkP a v, tot, "", none⟩
+
+/-- C03: the register of the loaded text is inside the exact domain (the running total of `e` goes -3.50, 0.00) -/
+theorem sample_register : register selAll [t1, t2] = .ok [
+    ⟨t1, [rrow ["a", "b"] ⟨false, 150, 2⟩ ⟨false, 150, 2⟩, rrow ["a", "bc"] ⟨false, 2, 0⟩ ⟨false, 2, 0⟩,
+          rrow ["e"] ⟨true, 350, 2⟩ ⟨true, 350, 2⟩]⟩,
+    ⟨t2, [rrow ["e"] ⟨false, 35, 1⟩ ⟨false, 0, 2⟩, rrow ["f"] ⟨true, 35, 1⟩ ⟨true, 35, 1⟩]⟩] := by
+  simp [register, registerEngine, plainStream, registerLoop, registerTxn, accPostings, accPosting, noConv,
+    List.mergeSort, List.MergeSort.Internal.splitInTwo, itemLe, rowLe, Posting.acctnKey, keyLe, acctName,
+    t1, t2, mkP, rrow, RegMap.set, RegMap.empty, RItem.key, Outcome.ofOption, Dec.add, Dec.isZero, sgn, max96]
+
+/-- `text_register_exact` on it: the last running total of `e` (0.00) is its account sum in the balance report -/
+example : ∀ k r, C03.lastRow k [rrow ["a", "b"] ⟨false, 150, 2⟩ ⟨false, 150, 2⟩, rrow ["a", "bc"] ⟨false, 2, 0⟩ ⟨false, 2, 0⟩,
+      rrow ["e"] ⟨true, 350, 2⟩ ⟨true, 350, 2⟩, rrow ["e"] ⟨false, 35, 1⟩ ⟨false, 0, 2⟩,
+      rrow ["f"] ⟨true, 35, 1⟩ ⟨true, 35, 1⟩] = some r → r.total.units = C03.ownSpec [t1, t2] k :=
+  (text_register_exact utc lax0 stAfter sample [t1, t2] sample_loads [t1, t2] (sel_all _) _ sample_register).2.2.2
+
+/-- C10: an equity export of the loaded text (accounts `a:b` and `f` selected, equity account `Equity`) is inside
+    the exact domain: 1.50 − 3.5 is carried forward with the balancing posting `Equity 2.00` -/
+def eqSel : Option (Path → Bool) := some (fun p => p == ["a", "b"] || p == ["f"])
+
+theorem sample_equity : equityExport stAfter eqSel ["Equity"] [] [t1, t2] = .ok [
+    ⟨⟨1704153600000000000, 0⟩, "Equity", [],
+     [⟨["a", "b"], ⟨false, 150, 2⟩, ""⟩, ⟨["f"], ⟨true, 35, 1⟩, ""⟩, ⟨["Equity"], ⟨false, 200, 2⟩, ""⟩]⟩] := by
+  unfold equityExport
+  rw [C13.fromIter_eval stAfter (nonZeroSel eqSel) (postsOf [t1, t2])
+    [(("", ["a", "b"]), ⟨false, 150, 2⟩), (("", ["a", "bc"]), ⟨false, 2, 0⟩), (("", ["e"]), ⟨false, 0, 2⟩),
+     (("", ["f"]), ⟨true, 35, 1⟩)]
+    [(("", ["a"]), ⟨false, 0, 0⟩), (("", ["a", "b"]), ⟨false, 150, 2⟩), (("", ["a", "bc"]), ⟨false, 2, 0⟩),
+     (("", ["e"]), ⟨false, 0, 2⟩), (("", ["f"]), ⟨true, 35, 1⟩)]
+    rowsAll [("", ⟨true, 200, 2⟩)] (by decide) (by decide) (by decide) (by decide) (by decide) (by decide)]
+  decide
+
+/-- `text_equity` on it: the generated transaction re-loads under lax settings and is balanced -/
+example : ∀ t ∈ [(⟨⟨1704153600000000000, 0⟩, "Equity", [],
+      [⟨["a", "b"], ⟨false, 150, 2⟩, ""⟩, ⟨["f"], ⟨true, 35, 1⟩, ""⟩, ⟨["Equity"], ⟨false, 200, 2⟩, ""⟩]⟩ : EqTxn)],
+    ∃ s2, acceptTxn lax0 t.toRaw = .ok (C10.toTxn t, s2) ∧ C10.Lax s2 ∧ C01.Balanced (C10.toTxn t) :=
+  (text_equity utc lax0 stAfter sample [t1, t2] sample_loads [t1, t2] (sel_all _) stAfter eqSel ["Equity"] [] _
+    sample_equity).2.1 lax0 ⟨by decide, by decide, by decide⟩
+
+/-- C13: the balance groups by date (report zone UTC) of the loaded text are inside the exact domain -/
+def keyD : Txn → String := groupKey .date (.fixed 0)
+
+theorem sample_candidates : groupCandidates keyD [t1, t2] = [("2024-01-01", [t1]), ("2024-01-02", [t2])] := by
+  unfold groupCandidates
+  rw [List.mergeSort_of_pairwise (by decide)]
+  decide
+
+def bal1 : Balance := ⟨[⟨["a"], "", ⟨false, 0, 0⟩, ⟨false, 350, 2⟩⟩, ⟨["a", "b"], "", ⟨false, 150, 2⟩, ⟨false, 150, 2⟩⟩,
+  ⟨["a", "bc"], "", ⟨false, 2, 0⟩, ⟨false, 2, 0⟩⟩, ⟨["e"], "", ⟨true, 350, 2⟩, ⟨true, 350, 2⟩⟩], [("", ⟨false, 0, 2⟩)]⟩
+def bal2 : Balance := ⟨[⟨["e"], "", ⟨false, 35, 1⟩, ⟨false, 35, 1⟩⟩, ⟨["f"], "", ⟨true, 35, 1⟩, ⟨true, 35, 1⟩⟩],
+  [("", ⟨false, 0, 1⟩)]⟩
+
+theorem sample_bal1 : fromIter stAfter (fun _ => true) (postsOf [t1]) = .ok bal1 := by
+  rw [C13.fromIter_eval stAfter (fun _ => true) (postsOf [t1])
+    [(("", ["a", "b"]), ⟨false, 150, 2⟩), (("", ["a", "bc"]), ⟨false, 2, 0⟩), (("", ["e"]), ⟨true, 350, 2⟩)]
+    [(("", ["a"]), ⟨false, 0, 0⟩), (("", ["a", "b"]), ⟨false, 150, 2⟩), (("", ["a", "bc"]), ⟨false, 2, 0⟩),
+     (("", ["e"]), ⟨true, 350, 2⟩)]
+    bal1.rows bal1.deltas (by decide) (by decide) (by decide) (by decide) (by decide) (by decide)]
+  rfl
+
+theorem sample_bal2 : fromIter stAfter (fun _ => true) (postsOf [t2]) = .ok bal2 := by
+  rw [C13.fromIter_eval stAfter (fun _ => true) (postsOf [t2])
+    [(("", ["e"]), ⟨false, 35, 1⟩), (("", ["f"]), ⟨true, 35, 1⟩)]
+    [(("", ["e"]), ⟨false, 35, 1⟩), (("", ["f"]), ⟨true, 35, 1⟩)]
+    bal2.rows bal2.deltas (by decide) (by decide) (by decide) (by decide) (by decide) (by decide)]
+  rfl
+
+theorem sample_groups : balanceGroupsBy stAfter (fun _ => true) keyD [t1, t2]
+    = .ok [⟨"2024-01-01", bal1⟩, ⟨"2024-01-02", bal2⟩] := by
+  unfold balanceGroupsBy
+  rw [sample_candidates]
+  simp only [groupBalances, sample_bal1, sample_bal2, Outcome.map]
+  decide
+
+/-- `text_groups_total` on it: `e` shows -3.50 on the 1st and 3.5 on the 2nd, 0.00 in the overall report -/
+example : ([(⟨"2024-01-01", bal1⟩ : BalGroup), ⟨"2024-01-02", bal2⟩].map (fun g => C13.rowOwn g.bal.rows ("", ["e"]))).sum
+    = C13.rowOwn rowsAll ("", ["e"]) :=
+  (text_groups_total utc lax0 stAfter sample [t1, t2] sample_loads [t1, t2] (sel_all _) stAfter (fun _ => true) keyD
+    ("", ["e"])).2 _ _ sample_groups sample_fromIter (fun _ _ => rfl)
+
+/-- `text_groups` on it: in the group of the 1st the ancestor `a` shows the members' postings below it -/
+example : ∀ g ∈ [(⟨"2024-01-01", bal1⟩ : BalGroup), ⟨"2024-01-02", bal2⟩], g.bal.rows ≠ [] := by
+  intro g hg
+  obtain ⟨_, _, _, _, _, hne, _⟩ := (text_groups utc lax0 stAfter sample [t1, t2] sample_loads [t1, t2] (sel_all _)
+    stAfter (fun _ => true) keyD _ sample_groups).2.2 g hg
+  exact hne
+
+/-- C09: the uuid of the first transaction is canonical, so `Uuid::to_string` is the identity on it … -/
+example : uuidToString "11111111-2222-3333-4444-5555555555ab" = "11111111-2222-3333-4444-5555555555ab" :=
+  (text_uuid_no_newline utc lax0 stAfter sample [t1, t2] sample_loads t1 (by decide) _ rfl).2.2.2
+
+/-- … and `text_checksum_determines_set` applies to any two selections of the loaded transactions -/
+example (tfa tfb : Txn → Bool) (heq : C09.preimage ([t1, t2].filter tfa) = C09.preimage ([t1, t2].filter tfb)) :
+    (C09.uuidsOf ([t1, t2].filter tfa)).Perm (C09.uuidsOf ([t1, t2].filter tfb)) :=
+  text_checksum_determines_set utc utc lax0 stAfter lax0 stAfter sample sample [t1, t2] [t1, t2] sample_loads sample_loads
+    _ _ (sel_filter _ tfa) (sel_filter _ tfb) heq
+
+/-- the uuid clause is not vacuous for other texts either: an upper-case uuid is read to its canonical text -/
+example : (match parseJournal utc "2024-01-01\n # uuid: AAAAAAAA-BBBB-CCCC-DDDD-EEEEEEEEEEFF\n a 1\n b\n".toList with
+    | some [r] => r.header.uuid
+    | _ => none) = some "aaaaaaaa-bbbb-cccc-dddd-eeeeeeeeeeff" := by decide
+
+end Ex
+
 end E2E
 end Tackler
